@@ -429,6 +429,30 @@ def deco_param_cases(ctx, viol, stats):
         h = DecoratorHelper(path)
         if (h.path, h.args, h.join_args) != (path, {}, ''):
             viol.append((['decorator', 'bare-path'], f'DecoratorHelper({path!r})', {'law': 'decorator', 'text': path, 'expected': [path, {}, '']}))
+    # parse_pair: a group of exactly two elements gives (first, second) as its first pair, whatever the elements hold
+    # (strings with the delimiter, groups of other kinds, a nested group of the same kind), with and without a blank after the delimiter
+    from rogw.tranp.view.helper.block import BlockParser as _BP
+    pair_items = {':': ['a', 'b1', '"k, 1"', 'f(x, y)', 'm[0]', "'q'", '"v: w"', '"(x"', 'T<A, B>', '{p: q}', 'g(1, {r: s})'],
+                  ',': ['a', 'b1', '"k, 1"', 'f(x: y)', 'm[0]', "'q'", '"(x"', 'k=v', '{p, q}', 'T<A, B>', 'tag[A, B](b)']}
+    for kind, delim in (('{}', ':'), ('()', ','), ('[]', ','), ('<>', ','), ('{}', ',')):
+        for prefix in ('', 'tag'):
+            for k_text, v_text in itertools.product(pair_items[delim], repeat=2):
+                for sep in (delim + ' ', delim, f' {delim} '):
+                    if any(ch in (k_text + v_text) for ch in kind) and not all((kind[0] in x) == (kind[1] in x) and not (x[0] in '"\'' and (kind[0] in x or kind[1] in x)) for x in (k_text, v_text)):
+                        continue   # a string holding the scanned bracket is outside the stated domain
+                    if any(delim in re.sub(r'"[^"]*"|\'[^\']*\'|\([^()]*\)|\[[^\[\]]*\]|\{[^{}]*\}|<[^<>]*>', '', x) for x in (k_text, v_text)):
+                        continue   # the delimiter at the top level of an element would make it three elements
+                    text = f'{prefix}{kind[0]}{k_text}{sep}{v_text}{kind[1]}'
+                    n += 1
+                    try:
+                        got = _BP.parse_pair(text, kind, delim)
+                        first = tuple(x.strip() for x in got[0]) if got else None
+                    except Exception as e:  # noqa
+                        first = f'raises:{type(e).__name__}'
+                    if first != (k_text, v_text):
+                        shape = 'group-then-suffix' if any(kind[1] in x and not x.endswith(kind[1]) for x in (k_text, v_text)) else ('blank-before-delimiter' if sep.startswith(' ') else 'plain')
+                        viol.append((['parse_pair', 'first-pair', 'raises' if isinstance(first, str) else 'wrong', f'brackets={kind}', shape],
+                                     f'parse_pair({text!r}, {kind!r}, {delim!r})[0] = {first!r}, expected {(k_text, v_text)!r}', {'law': 'parse_pair', 'text': text, 'brackets': kind, 'delim': delim, 'expected': [k_text, v_text]}))
     for t in PARAM_TYPES:
         for name in PARAM_NAMES:
             for d in PARAM_DEFAULTS:
@@ -573,6 +597,10 @@ def replay(ctx, data):
         got = BlockParser.parse_bracket(data['text'], data['brackets'])
         if not got or got[0] != data['expected']:
             ctx.violation(['parse_bracket', 'replay'], f'{data["text"]!r} -> {got!r}', data)
+    elif law == 'parse_pair':
+        got = BlockParser.parse_pair(data['text'], data['brackets'], data['delim'])
+        if not got or [x.strip() for x in got[0]] != data['expected']:
+            ctx.violation(['parse_pair', 'replay'], f'{data["text"]!r} -> {got!r}', data)
     elif law == 'decorator':
         from rogw.tranp.view.helper.decorator import DecoratorHelper
         h = DecoratorHelper(data['text'])
